@@ -144,26 +144,27 @@ type ClosedIface struct {
 }
 
 type PkgSpec struct {
-	Pkg       string
-	Contracts map[string]*Contract
-	Order     []string
-	Preds     map[string]*Pred
-	Pure      map[string]*PureFn
-	Lemmas    []*Lemma
-	Extern    map[string]bool      // extern interfaces: invoke = trace event
-	PureM     map[string]bool      // "Iface.Method": deterministic, effect-free interface methods
-	ExtPost   map[string][]*Clause // "Iface.Method": assumed facts about results of extern calls
-	Marks     []string             // ghost mark sets (Array Int Bool), function-local knowledge
-	MarkRules []MarkRule
-	Closed    map[string]*ClosedIface
-	Protos    map[string]*Protocol
-	Locks     []*LockSpec
-	InitOnly  []string
-	Monotone  []string             // Type.field: boolean flags that only ever go from false to true
-	ExtFuncs  map[string]*Contract // assumed contracts of dependency functions, keyed by ssa.Function.String()
+	Pkg        string
+	Contracts  map[string]*Contract
+	Order      []string
+	Preds      map[string]*Pred
+	Pure       map[string]*PureFn
+	Lemmas     []*Lemma
+	RoundTrips []*RoundTrip
+	Extern     map[string]bool      // extern interfaces: invoke = trace event
+	PureM      map[string]bool      // "Iface.Method": deterministic, effect-free interface methods
+	ExtPost    map[string][]*Clause // "Iface.Method": assumed facts about results of extern calls
+	Marks      []string             // ghost mark sets (Array Int Bool), function-local knowledge
+	MarkRules  []MarkRule
+	Closed     map[string]*ClosedIface
+	Protos     map[string]*Protocol
+	Locks      []*LockSpec
+	InitOnly   []string
+	Monotone   []string             // Type.field: boolean flags that only ever go from false to true
+	ExtFuncs   map[string]*Contract // assumed contracts of dependency functions, keyed by ssa.Function.String()
 }
 
-var keywordRe = regexp.MustCompile(`^(abstracts|after|before|bitvector|func|token|require|monotone|mark|witness|pred|pure|axiom|lemma|extern|closed|protocol|lock|property|requires|ensures|case|modifies|loop|panics|inline|trusted|emits|allocs|unroll|shared|ghost|inv|threads|on|guar|protects|discipline|initonly|atomic|noframe|level|assume|self|local|single|init|rely|counter|holds|acquires)\b`)
+var keywordRe = regexp.MustCompile(`^(abstracts|after|before|bitvector|func|token|require|monotone|mark|witness|pred|pure|axiom|lemma|roundtrip|extern|closed|protocol|lock|property|requires|ensures|case|modifies|loop|panics|inline|trusted|emits|allocs|unroll|shared|ghost|inv|threads|on|guar|protects|discipline|initonly|atomic|noframe|level|assume|self|local|single|init|rely|counter|holds|acquires)\b`)
 
 // parseContractFile extracts the //@ lines of a file.
 func parseContractComments(f *ast.File, fname string) []specLine {
@@ -327,6 +328,18 @@ func parsePkgSpec(pkg string, lines []specLine) (*PkgSpec, error) {
 				return nil, fmt.Errorf("%s: %v", l.where, err)
 			}
 			ps.Lemmas = append(ps.Lemmas, &Lemma{Name: head, Props: props, Expr: x, Axiom: kw == "axiom", Where: l.where, Strings: strMode})
+			cur, curProto, curLock = nil, nil, nil
+		case "roundtrip":
+			// roundtrip name [C16]: encode F decode G unroll N
+			i := strings.Index(rest, ":")
+			if i < 0 {
+				return nil, fmt.Errorf("%s: malformed roundtrip", l.where)
+			}
+			rt, err := parseRoundTrip(strings.TrimSpace(rest[:i]), rest[i+1:], l.where)
+			if err != nil {
+				return nil, err
+			}
+			ps.RoundTrips = append(ps.RoundTrips, rt)
 			cur, curProto, curLock = nil, nil, nil
 		case "extern":
 			if strings.HasPrefix(rest, "func ") {
